@@ -10,19 +10,18 @@
 #endif
 void w_lpmod(PARAMS)
 REQ_STATE
+REQ_CONSISTENT
 __CPROVER_requires(0 <= i && i < DIM && FINITE(v1))
-/* SoPlexBase::_isConsistent(): the type arrays have the rational LP's dimensions; in automatic mode both LPs have equal dimensions */
-__CPROVER_requires(!AUTO || (QDIM == DIM && NTYPES == QDIM))
-__CPROVER_requires(0 <= g_k && g_k < NTYPES && v_old == TYPES[g_k])
+__CPROVER_requires(!INR(g_k, NTYPES) || v_old == TYPES[g_k])
 __CPROVER_assigns(ASSIGNS_GHOSTS, ARR(TYPES))
 /* F1 (C06): forwarded to the internal twin with the same index and value; solution flags invalidated */
 __CPROVER_ensures(gi_calls == 1 && gi_m == CODE && gi_i == i && gi_v1 == v1 && gr_calls == 0)
 ENS_INVALIDATED
 /* F2 (C07): automatic mode: the rational LP receives the exactly converted value for the same index, once */
-__CPROVER_ensures(!AUTO || (gq_calls == 1 && gq_m == CODE && gq_i == i && gq_v1 == TORAT(v1)))
+__CPROVER_ensures(!AUTO || (gq_calls == 1 && gq_m == CODE && gq_i == i && gq_v1 == TORAT(v1) && gq_scale == 0))
 __CPROVER_ensures(AUTO || gq_calls == 0)
 /* ... and the bound type of exactly that row/column is the classification of its NEW rational bounds */
 __CPROVER_ensures(!AUTO || TYPES[i] == RT_Q(NEWLO, NEWUP))
-__CPROVER_ensures((AUTO && g_k == i) || TYPES[g_k] == v_old)
+__CPROVER_ensures(!INR(g_k, NTYPES) || (AUTO && g_k == i) || TYPES[g_k] == v_old)
 __CPROVER_ensures(out[4] == nrt && out[5] == nct && out[10] == qnr && out[11] == qnc)
 ;
